@@ -93,7 +93,7 @@ func init() {
 	checks["C22"] = eng.Check{
 		Hist:        true,
 		Procs:       12,
-		Rule:        "explicit-state BFS over input-line histories of depth <=3 (thorough 4) from the initial state and 5 non-initial root states (inside the emulator, after emulation steps, inside memory views of an absent and of a written memory, after a move) on 4 programs (a 1-instruction code, a 3-block code with blocks of different sizes, a loop with a gap, a code with blocks of 2, 1 and 2 instructions), through the real UI.processCommand with stdin injected per command; line alphabets per mode: disassembler 43 lines plus, per program, moves between every pair of block header lines and move/bounds/goto on each block's first instruction, emulator 35 lines with prompt answers from {5,0x10,-1,'',_,zz}, memory view 27 lines (blank/space-only lines, missing/extra/non-numeric/negative/huge arguments, out-of-range line numbers, bad regexes, unknown commands, mode switches e, m <key>, q). After every command the composite screen is rendered at heights 24 and 50 as Run does. States are deduplicated by (mode stack, cursors, marks, code order, emulator registers and memory). Oracle: no panic, the command loop does not fail, q pops exactly one mode. Non-trivial = history reaching a new state.",
+		Rule:        "explicit-state BFS over input-line histories of depth <=3 (thorough 4) from the initial state and 5 non-initial root states (inside the emulator, after emulation steps, inside memory views of an absent and of a written memory, after a move) on 4 programs (a 1-instruction code, a 3-block code with blocks of different sizes, a loop with a gap, a code with blocks of 2, 1 and 2 instructions), through the real UI.processCommand with stdin injected per command; line alphabets per mode: disassembler 43 lines plus, per program, moves between every pair of block header lines and move/bounds/goto on each block's first instruction, emulator 35 lines with prompt answers from {5,0x10,-1,'',_,zz}, memory view 27 lines (blank/space-only lines, missing/extra/non-numeric/negative/huge arguments, out-of-range line numbers, bad regexes, unknown commands, mode switches e, m <key>, q). After every command the composite screen is rendered at heights 24 and 50 as Run does. States are deduplicated by (mode stack, cursors, marks, code order, emulator registers and memory). Plus two long walks per program on a single session (600 lines cycling through the alphabet of the current mode). Oracle: no panic, the command loop does not fail, q pops exactly one mode. Non-trivial = history reaching a new state.",
 		Assumptions: []string{"every injected input ends with a tail of valid answers so prompts never hit EOF (horizon)", "terminal size is supplied by the harness (heights 24, 50); the system call path is only exercised by C26's pty runs"},
 		Run: func(r *eng.Run) {
 			depth := 3
@@ -195,6 +195,43 @@ func init() {
 						}
 					}
 					frontier = next
+				}
+			}
+			// long walks: one session per program, 600 lines cycling through the alphabet of
+			// whatever mode is current (quit only when nested), rendering after every line
+			for pi, p := range uiProgs {
+				if !r.Mine(pi) {
+					continue
+				}
+				for _, stride := range []int{1, 7} {
+					var hist []uiLine
+					probe, err := uix.New(p.Segs, p.Entry)
+					if err != nil {
+						continue
+					}
+					idx := 0
+					for step := 0; step < 600 && !probe.Quit; step++ {
+						alpha := c22Alpha[probe.ModeKind()]
+						l := alpha[(idx*stride)%len(alpha)]
+						idx++
+						if strings.TrimSpace(l.Line) == "q" && probe.Depth() <= 1 {
+							continue
+						}
+						hist = append(hist, l)
+						res := probe.Command(l.Line, l.Answers...)
+						if res.Panic != nil || res.Err != nil {
+							break
+						}
+					}
+					_, f := c22Replay(c22Case{Prog: p.Name, History: hist, Heights: []int{24}})
+					r.Eval(1)
+					r.Trans(len(hist))
+					r.Trace(1)
+					if f != nil {
+						f.Sig += " (long walk)"
+						r.Report(f)
+						r.Outcome(f.Sig)
+					}
 				}
 			}
 			if r.Mine(0) {
